@@ -6,7 +6,7 @@
                                             columns: N | (L S:..+)     kwargs: (D (k colval)*)
     setitem <h> <S:key|I:key> <colval>      colval: cell | (L cell*) | (T cell*)
     delitem <h> <S:key>      update <h> (D (k colval)*)
-    len <h>   shape <h>   row <h> I:i   col <h> S:k   iter <h>   tup <h> (T S:k+)
+    len <h>   shape <h>   row <h> I:i   col <h> S:k   iter <h>   tup <h> (T S:k+)   apply <h> <fn>
     slice <dst> <h> <a> <b> <s>   (N | I:n each)      mask <dst> <h> (L B:*)      take <dst> <h> (L I:*)
     proj <dst> <h> (L S:*)
     call <dst> <h> (D (k colval|fn)*)       fn: (fn idcol S:a) | (fn isnone S:a) | (fn coalesce S:a S:b) | (fn const cell)
@@ -134,6 +134,7 @@ def parseOp (op : String) (args : List Sexp) : Option Op :=
       let ks ← strsOf ks
       if ks.isEmpty then Option.none
       pure (.tup (← handleOf h) ks)
+  | "apply", [h, f] => do pure (.apply (← handleOf h) (← fnOf f))
   | "slice", [dst, h, a, b, s] => do
       pure (.slice (← handleOf dst) (← handleOf h) (← optIntOf a) (← optIntOf b) (← optIntOf s))
   | "mask", [dst, h, .node (.atom "L" :: ms)] => do
